@@ -10,7 +10,7 @@ use debruijn::graph::*;
 use debruijn::*;
 use std::collections::{BTreeMap, BTreeSet};
 use std::fmt::Debug;
-use vcommon::families::{catalogue, Space};
+use vcommon::families::{catalogue, Seg, Space};
 use vcommon::refmodel::*;
 use vcommon::report::Report;
 use vcommon::seq::*;
@@ -35,6 +35,8 @@ pub fn plan(quick: bool) -> Vec<Part> {
         v.push(Part::new("C03", "R2", 6, Space::pairs(6, 7)).dim("sub", &[0]).dim("all_links", &[0]));
         v.push(Part::new("C03", "R3", 4, Space::triples(4, 5)).dim("sub", &[0]).dim("all_links", &[1]));
     }
+    v.push(Part::new("C03", "handbuilt-node-lists", 4, if quick { Space::singles(4, 6).plus(Space { segs: vec![Seg::Pair(4, 4), Seg::Pair(5, 4)] }) } else { Space::singles(4, 8).plus(Space::pairs(4, 5)) }).dim("handbuilt", &[1]));
+    v.push(Part::new("C03", "handbuilt-node-lists", 5, Space::singles(5, if quick { 7 } else { 8 })).dim("handbuilt", &[1]));
     for k in BIG_K {
         v.push(Part::new("C03", "catalogue", k, Space { segs: vec![catalogue(k)] }).dim("sub", &[4]).dim("all_links", &[0]));
     }
@@ -42,7 +44,7 @@ pub fn plan(quick: bool) -> Vec<Part> {
 }
 
 pub fn finalize(_tier: &str, rep: &mut Report) {
-    rep.rule = "every read set of the listed families x {stranded, unstranded}; graphs: direct (pruned), re-compressed, unpruned (thresholded table, dangling extensions), every single minimizer shard finished alone; per graph: every node x side x base (extension sets, edge targets/arrival side/flip, symmetry, (K+1)-mer set equality with the reads), find_link for ALL 4^K k-mers x both directions (K<=6; terminal k-mers, their reverse complements and one-base neighbours for K>=8), remove_censored_exts / remove_censored_exts_sharded for every valid-subset (and every valid<=all pair) of small tables, fix_exts/get_valid_exts for every node subset of small graphs, max_path under 4 score x 3 solid modes, max_path_beam, sequence_of_path on every edge walk of <= 3 nodes".into();
+    rep.rule = "every read set of the listed families x {stranded, unstranded}; graphs: hand-built node lists (single nodes and pairs of short nodes with every extension bit set: edges, symmetry, get_valid_exts/fix_exts, walks), direct (pruned), re-compressed, unpruned (thresholded table, dangling extensions), every single minimizer shard finished alone; per graph: every node x side x base (extension sets, edge targets/arrival side/flip, symmetry, (K+1)-mer set equality with the reads), find_link for ALL 4^K k-mers x both directions (K<=6; terminal k-mers, their reverse complements and one-base neighbours for K>=8), remove_censored_exts / remove_censored_exts_sharded for every valid-subset (and every valid<=all pair) of small tables, fix_exts/get_valid_exts for every node subset of small graphs, max_path under 4 score x 3 solid modes, max_path_beam, sequence_of_path on every edge walk of <= 3 nodes".into();
     rep.assumptions.push("K >= 8 k-mer types are covered by the structure catalogue only (content not exhaustive)".into());
     rep.assumptions.push("max_path_beam: only walk validity is judged (its cycle-terminated paths repeat a node by design)".into());
     for f in ["palindromic_kmer", "self_link_or_hairpin", "branch", "unpruned_graph_with_dangling_extensions", "single_shard_graphs_checked", "censor_subsets_explored", "best_path_longer_than_one_node"] {
@@ -245,7 +247,73 @@ fn best_paths<K: Kmer>(o: &mut Outcome, stage: &str, g: &DebruijnGraph<K, u16>, 
     }
 }
 
+/// hand-built node lists (not produced by the crate's compressors), every extension bit set
+fn run_handbuilt<K: Kmer + Send + Sync>(c: &GCase) -> Outcome {
+    let mut o = Outcome::default();
+    let k = K::k();
+    let nodes = c.reads_s();
+    let firsts: BTreeSet<&[u8]> = nodes.iter().map(|n| &n[..k]).collect();
+    let lasts: BTreeSet<&[u8]> = nodes.iter().map(|n| &n[n.len() - k..]).collect();
+    if firsts.len() != nodes.len() || lasts.len() != nodes.len() {
+        return o; // not a valid BaseGraph: end k-mers are perfect-hash keys and must be distinct
+    }
+    // a valid graph holds every (canonical) k-mer at most once
+    let all: Vec<S> = nodes.iter().flat_map(|n| windows(n, k)).map(|w| canon(&w, c.stranded).0).collect();
+    if all.iter().collect::<BTreeSet<_>>().len() != all.len() {
+        return o;
+    }
+    if nodes.iter().any(|n| !c.stranded && n.len() > k && (is_pal(&n[..k]) || is_pal(&n[n.len() - k..]))) {
+        o.flags |= flag::PAL;
+    }
+    let mut bg: BaseGraph<K, u16> = BaseGraph::new(c.stranded);
+    for (i, n) in nodes.iter().enumerate() {
+        bg.add(n.iter(), Exts::new(0xff), i as u16);
+    }
+    let mut g = bg.finish_serial();
+    let gv = view(&g);
+    let idx = gv.link_index();
+    for i in 0..gv.nodes.len() {
+        let mut want_bits = ([false; 4], [false; 4]);
+        for side in [Side::L, Side::R] {
+            let mut want: Vec<Vec<EdgeV>> = vec![];
+            for b in 0..4u8 {
+                let a = idx.answers(&ext_str(gv.term(i, side), side, b), side);
+                if !a.is_empty() {
+                    match side {
+                        Side::L => want_bits.0[b as usize] = true,
+                        Side::R => want_bits.1[b as usize] = true,
+                    }
+                    want.push(a);
+                }
+            }
+            let got = gv.nodes[i].edges(side);
+            o.transitions += 1;
+            if got.len() != want.len() || got.iter().zip(want.iter()).any(|(e, a)| !a.contains(e)) {
+                o.fail("wrong-edge", format!("[handbuilt] node {} = {} side {:?}: edges {:?}, acceptable {:?}", i, ascii(&gv.nodes[i].seq), side, got, want));
+            }
+            for (tgt, tside, _) in got {
+                let sides: Vec<Side> = if gv.is_pal_single(*tgt) { vec![Side::L, Side::R] } else { vec![*tside] };
+                if !sides.iter().any(|s| gv.nodes[*tgt].edges(*s).iter().any(|(b, bs, _)| *b == i && (gv.is_pal_single(i) || *bs == side))) {
+                    o.fail("asymmetric-edge", format!("[handbuilt] node {} side {:?} reaches node {} side {:?} but not vice versa", i, side, tgt, tside));
+                }
+            }
+        }
+        // pruning to the resolvable extensions
+        let (gl, gr) = decode_exts(g.get_valid_exts(i, None).val);
+        if (gl, gr) != want_bits {
+            o.fail("get-valid-exts-wrong", format!("[handbuilt] node {} = {}: valid extensions L{:?} R{:?}, resolvable L{:?} R{:?}", i, ascii(&gv.nodes[i].seq), gl, gr, want_bits.0, want_bits.1));
+        }
+    }
+    g.fix_exts(None);
+    let gv2 = view(&g);
+    walk_checks(&mut o, "handbuilt", &g, &gv2);
+    o
+}
+
 pub fn run<K: Kmer + Send + Sync>(c: &GCase) -> Outcome {
+    if c.get("handbuilt") == 1 {
+        return run_handbuilt::<K>(c);
+    }
     let mut o = Outcome::default();
     let k = K::k();
     let reads = plain_reads(&c.reads_s());
@@ -300,6 +368,38 @@ pub fn run<K: Kmer + Send + Sync>(c: &GCase) -> Outcome {
                 o.transitions += 1;
                 if (gl, gr) != (wl, wr) {
                     o.fail("get-valid-exts-wrong", format!("[direct] node {} = {} valid-node mask {:b}: got L{:?} R{:?}, want L{:?} R{:?}", i, ascii(&gv.nodes[i].seq), mask, gl, gr, wl, wr));
+                }
+            }
+        }
+    }
+
+    // ---- fix_exts(Some(valid nodes)) for every node subset: afterwards EVERY node (valid or not) keeps exactly the
+    //      extensions that resolve to a valid node ----
+    if nn >= 1 && nn <= sub {
+        let idx = gv.link_index();
+        for mask in 0u32..(1 << nn) {
+            let mut bs = BitSet::with_capacity(nn);
+            for i in 0..nn {
+                if mask >> i & 1 == 1 {
+                    bs.insert(i);
+                }
+            }
+            let mut gg = compress_kmers(c.stranded, &sum_spec(), &pruned).finish_serial();
+            gg.fix_exts(Some(&bs));
+            let after = view(&gg);
+            o.transitions += 1;
+            for i in 0..nn {
+                let mut wl = [false; 4];
+                let mut wr = [false; 4];
+                for b in 0..4u8 {
+                    for (side, bases, w) in [(Side::L, &gv.nodes[i].l, &mut wl), (Side::R, &gv.nodes[i].r, &mut wr)] {
+                        if bases[b as usize] {
+                            w[b as usize] = idx.answers(&ext_str(gv.term(i, side), side, b), side).iter().any(|(t, _, _)| mask >> t & 1 == 1);
+                        }
+                    }
+                }
+                if (after.nodes[i].l, after.nodes[i].r) != (wl, wr) {
+                    o.fail("fix-exts-wrong", format!("[direct] fix_exts(valid-node mask {:b}): node {} = {} keeps L{:?} R{:?}, want L{:?} R{:?}", mask, i, ascii(&gv.nodes[i].seq), after.nodes[i].l, after.nodes[i].r, wl, wr));
                 }
             }
         }
